@@ -58,11 +58,14 @@ CLAIMS = {
             "is the copy after all rules. The model is purely functional: that the caller's document is untouched is checked on the "
             "implementation (C08). Differential run over castable/uncastable strings under keys of every type.",
             "DESIGN.md section 7 C15"),
-    "C08": ("9 theorems (ValidaProofs/C08.lean): documents as a store of cells – validation works on a deep copy (read from the source) "
+    "C08": ("12 theorems (ValidaProofs/C08.lean, C08Threads.lean): headline `C08_interleaving_same_results` / `C08_interleaving_callers_cells` / "
+            "`C08_schedule_independent`: any number of validations, each the program `allocate the copy, then the cast write-backs`, interleaved "
+            "in ANY schedule over one store, never write a cell the caller had, and every validation's working copy ends up denoting exactly the "
+            "value it denotes when run alone. Also: documents as a store of cells – validation works on a deep copy (read from the source) "
             "whose cells are all fresh, a write through the copy's root only rewrites cells reachable from it, hence for every sequence of "
             "cast write-backs the caller's cells are untouched; conditions as objects – no construction during any history of calls writes "
-            "an existing condition (C02); repeatability by purity of the model. PARTIAL: thread schedules are covered only by the read-only "
-            "argument, the interpreter is not modelled. Identity-aware snapshots of documents, rules, paths, parts and conditions after every "
+            "an existing condition (C02); repeatability by purity of the model. The interpreter itself is not modelled (allocation and write "
+            "actions are the atomic steps of the schedule theorem). Identity-aware snapshots of documents, rules, paths, parts and conditions after every "
             "call of generated histories on the implementation.", "DESIGN.md section 7 C08"),
     "C09": ("17 theorems (ValidaProofs/C09.lean, C09Spec.lean): headline `C09_spec_is_dsl` (C09Spec.lean): for every class, every constructor of the generated tables (aliases included), every spelling of the key (any letter case; type/dtype, len/length, in/in_) and every argument form the signature admits (scalar; list, tuple or mapping for several parameters; list for *args; mapping for **kwargs; type names for types), the spec parses to exactly the leaf the DSL call builds; `C09_spec_tree`: operator lists parse to the DSL-built tree. Also: the constructor tables generated from GeneralCallables / MapCallables bind correctly "
             "against the signatures generated from callables.py (what not_in_range violated), alias and type-name tables, null spec, and/or/xor "
